@@ -108,13 +108,16 @@ def flagAt (l : List UInt8) (i : Nat) : Bool :=
   | some v => v != 0
   | none => false
 
-/-- lines 613-625 -/
+/-- lines 613-625: `for i in range(typecnt)`, `i` counted from the given start -/
+def mkTypesFrom (abbr : List UInt8) (isstd isgmt : List UInt8) : Nat → List (Int × Int × Int) → List TType
+  | _, [] => []
+  | i, rec :: rest =>
+      { off := rec.1, isdst := rec.2.1, abbr := abbrAt abbr rec.2.2,
+        isstd := flagAt isstd i, isgmt := flagAt isgmt i, dstoff := 0 : TType }
+        :: mkTypesFrom abbr isstd isgmt (i + 1) rest
+
 def mkTypes (recs : List (Int × Int × Int)) (abbr : List UInt8) (isstd isgmt : List UInt8) :
-    List TType :=
-  (List.range recs.length).zipWith (fun i (rec : Int × Int × Int) =>
-    { off := rec.1, isdst := rec.2.1, abbr := abbrAt abbr rec.2.2,
-      isstd := flagAt isstd i, isgmt := flagAt isgmt i,
-      dstoff := 0 : TType }) recs
+    List TType := mkTypesFrom abbr isstd isgmt 0 recs
 
 def magic : List UInt8 := [0x54, 0x5A, 0x69, 0x66]   -- "TZif"
 
